@@ -186,7 +186,7 @@ def _mon(name):
     return get
 
 
-ALL_LEAVES = INNER_ENGINES + LEAF_ONLY
+ALL_LEAVES = INNER_ENGINES + LEAF_ONLY + ["lhs", "sobol"]  # LHS / Sobol are legal below the root too (they ignore the seed)
 
 
 @register
@@ -338,7 +338,7 @@ class C04(RunSpec):
         p["root"] = _cycle(ROOT_ENGINES, idx)
         p["leaf"] = _cycle(ALL_LEAVES, idx, 1)
         p["maximize"] = bool(idx % 2)
-        p["fams"] = ["rastrigin", "funnel", "sphere", "absv", "plateau", "linear", "face", "plateau"]
+        p["fams"] = ["rastrigin", "funnel", "sphere", "absv", "plateau", "linear", "face", "plateau", "offset"]
         if idx % 3 == 1:
             # steadily converging runs: the best-ever value is typically first observed in the very last generations,
             # which is where an evaluated-but-not-recorded generation (or a stale best) becomes visible
@@ -1152,7 +1152,7 @@ class C20(RunSpec):
         p["root"] = _cycle(ROOT_ENGINES, idx)
         p["leaf"] = _cycle(ALL_LEAVES, idx, 1)
         p["levels"] = [2, 3, 2, 1]
-        p["fams"] = ["plateau", "constant", "sphere", "rastrigin", "plateau", "funnel", "linear"]
+        p["fams"] = ["plateau", "constant", "sphere", "rastrigin", "plateau", "funnel", "linear", "offset", "offset"]
         p["gscs"] = ["melimit", "evals"]
         p["seeded_p"] = 0.85
         p["entry"] = "tree"
@@ -1193,6 +1193,7 @@ class C20(RunSpec):
             ("C20.two_demes_share_global_best", 1, "tree with >=2 demes sharing the global best"),
             ("C20.displayed_and_not_yet_displayed_child", 1, "tree with a displayed and a not-yet-displayed child"),
             ("C20.best_fitness_exactly_zero", 1, "best fitness exactly 0.0"),
+            ("objective.offset", 3, "objective with a huge constant offset (near-ties in the 10th digit)"),
             ("C20.undisturbed_twins", 10, "undisturbed twins"),
             ("C20.accessor_calls", 1000, "accessor calls"),
         ]
